@@ -1,6 +1,8 @@
 (** C01 - Removing an action is quiescent: never runs again, freed outside any handler. *)
 From Coq Require Import List NArith ZArith Bool.
-From SH Require Import base.Pool gen.Extracted_halflock halflock.Model halflock.Skeleton registry.Skeleton registry.Model registry.Inv registry.PcInv registry.Events registry.Deliver.
+From SH Require Import base.Pool gen.Extracted_halflock halflock.Model halflock.Skeleton registry.Skeleton
+  registry.Model registry.Inv registry.PcInv registry.Events registry.Deliver registry.Content registry.Holder
+  registry.Quiesce registry.Returns registry.Examples.
 Import ListNotations.
 
 (** No delivery, in any reachable world of any schedule with any number of deliveries and
@@ -19,3 +21,35 @@ Theorem C01_no_double_free :
   forall (q_ok s_ok : Z -> bool) os0 ls s fs es,
   run q_ok s_ok (sh_init os0, []) ls = ((s, fs), es) -> NoDup (freed (dt s)) /\ NoDup (freed (fb s)).
 Proof. exact no_double_free. Qed.
+
+(** Releases (operation 11) - of a snapshot and with it of the actions only it still refers to -
+    are never performed by a delivery: every step of a delivery consists of handler operations
+    only. *)
+Theorem C01_released_by_mutators_only :
+  forall (q_ok s_ok : Z -> bool) os0 ls s fs es,
+  run q_ok s_ok (sh_init os0, []) ls = ((s, fs), es) ->
+  forall k f sg s' f' es', nth_error fs k = Some f -> kind f = KDeliver sg ->
+    fstep q_ok s_ok s f = (s', f', es') ->
+    forallb handler_op es' = true /\ forallb (fun e => negb (forbidden_in_handler e)) es' = true.
+Proof. exact delivery_steps_are_handler_ops. Qed.
+
+(** After [unregister(id)] has returned true - in the world of the return and in every world of
+    every continuation - no delivery of that signal has the action still to run, and the current
+    registry state does not contain it. *)
+Theorem C01_unregister_quiescent :
+  forall (q_ok s_ok : Z -> bool) os0 ls s fs es,
+  run q_ok s_ok (sh_init os0, []) ls = ((s, fs), es) ->
+  forall k g sg id, nth_error fs k = Some g -> kind g = KMut (MUnregister sg id) -> fpc g = PDone -> res g = 1%Z ->
+    (forall j h, nth_error fs j = Some h -> sig_of (kind h) = sg -> ~ In id (map fst (pending h))) /\
+    ~ In id (map fst (slot_acts (cur s) sg)).
+Proof. exact unregister_true_is_quiescent. Qed.
+
+(** The same for removal by signal (and thereby for the drop of an owner, which calls
+    unregister for each recorded id). *)
+Theorem C01_unregister_signal_quiescent :
+  forall (q_ok s_ok : Z -> bool) os0 ls s fs es,
+  run q_ok s_ok (sh_init os0, []) ls = ((s, fs), es) ->
+  forall k g sg id, nth_error fs k = Some g -> kind g = KMut (MUnregSignal sg) -> fpc g = PDone -> In id (removed g) ->
+    (forall j h, nth_error fs j = Some h -> sig_of (kind h) = sg -> ~ In id (map fst (pending h))) /\
+    ~ In id (map fst (slot_acts (cur s) sg)).
+Proof. exact unregister_signal_is_quiescent. Qed.
